@@ -78,6 +78,10 @@ Lemma gate_without_authorization : forall optype ds roots k,
   is_fetch_authorized_from_cache false optype ds roots k = true.
 Proof. reflexivity. Qed.
 
+Lemma gate_no_root_fields : forall has_auth optype ds k,
+  is_fetch_authorized_from_cache has_auth optype ds [] k = true.
+Proof. intros [|] optype ds k; reflexivity. Qed.
+
 (* query: held back exactly when there is a root field and every root field is protected and denied *)
 Lemma fetch_gate_query_lemma : forall ds roots k,
   is_fetch_authorized_from_cache true OP_QUERY ds roots k = false <->
